@@ -32,6 +32,14 @@ func (p *A) call(a int) int { return w(a) + 300 + p.Tag }
 // CallLower reaches the unexported method.
 func (p *A) CallLower(a int) int { return p.call(a) }
 
+// callAll: a second unexported method of the same type whose name has the first one as prefix
+//
+//go:noinline
+func (p *A) callAll(a int) int { return w(a) + 1200 + p.Tag }
+
+// CallAllLower reaches it.
+func (p *A) CallAllLower(a int) int { return p.callAll(a) }
+
 // V: value receiver with fields.
 type V struct {
 	Tag int
